@@ -33,8 +33,8 @@ pub fn prop() -> Prop {
         id: "C12",
         level: "exploration",
         runs: |t| match t {
-            Tier::Quick => 96,
-            Tier::Thorough => 1900,
+            Tier::Quick => 480,
+            Tier::Thorough => 5000,
         },
         generate,
         exec,
